@@ -17,7 +17,7 @@ func init() {
 		Config: c09Config, Run: c09Run, MaxSteps: 140,
 		Rule: "runs = PRNG-generated interleavings on reliable links (ping-pong, bursts, one-directional streams, refresh AKE while encrypted); the shadow reference knows every DH key of every session, so for every 20-byte key in an 'old MAC keys' field it decides which key pair it belongs to and whether the discloser would still accept that pair at that moment; after a flush every receiving MAC key that verified a message and whose pair is retired must have been disclosed; independently of the shadow, every disclosed key is used at once to forge data messages to the discloser for all key id pairs around those in use - none may be accepted; in a quarter of the runs a party's randomness source fails at PRNG-chosen reads (a key rotation half made) and the forgery probe alone decides; " +
 			"non-trivial = at least 4 keys were disclosed and both sides retired a generation; distinct = distinct step sequences",
-		Assume: []string{"disclosure at the very end of a session (End) is not demanded by the statement and not checked", "a party that is told by the peer's disconnect that the session is over forgets its keys at once (specification); the keys of that session are not demanded from it; after its OWN End followed by a new session on the same conversation they are", "retired = the discloser's acceptance window (own ids our-1..our, peer ids their-1..their of the running session) no longer contains the pair"},
+		Assume: []string{"disclosure at the very end of a session (End) is not demanded by the statement and not checked", "keys used in a session that was ended (by End or by the peer's disconnect) are demanded once a later session on the same conversation has sent data messages", "retired = the discloser's acceptance window (own ids our-1..our, peer ids their-1..their of the running session) no longer contains the pair"},
 	})
 }
 
@@ -159,14 +159,11 @@ func c09Run(rc *RunCtx) *Violation {
 	endedByPeer := [2]map[int]bool{{}, {}}
 	w.Observers = append(w.Observers, func(p *Party, r *CallResult) {
 		if r.Kind == "recv" && r.HasEvent("sec", "GoneInsecure") && p.Idx < 2 && p.Idx < len(o.Sh) && o.Sh[p.Idx] != nil && o.Sh[p.Idx].Peer != nil {
-			endedByPeer[p.Idx][len(o.Sh[p.Idx].Sess)-1] = true
-			// the reference keeps its record of used keys across the end of a session (it would
-			// disclose them in a later one); for a session ended by the peer that is not demanded
-			o.Sh[p.Idx].snapshotKeys()
-			o.Sh[p.Idx].Peer.UsedRecvMAC, o.Sh[p.Idx].Peer.PendingOldMAC = nil, nil
-			for _, c := range o.Sh[p.Idx].Sess {
-				c.Must = nil // whatever was still waiting for a data message of ours to travel in
-			}
+			// (kept for the record: for a while the keys of a session ended by the PEER were exempted
+			// here as "the receiver forgets its keys at once". The statement makes no such exception,
+			// the library's own End() and refresh paths carry such keys into the next session, and the
+			// repair for the disconnect path was three lines - see DESIGN.md Appendix A.)
+			_ = endedByPeer
 		}
 		if lying || p.Ref != nil {
 			return
@@ -413,9 +410,6 @@ func c09Run(rc *RunCtx) *Violation {
 			shown = append(shown, c.Shown...)
 		}
 		for si2, c := range s.Sess {
-			if s.P.Idx < 2 && endedByPeer[s.P.Idx][si2] {
-				continue
-			}
 			si := si2
 			for _, k := range c.Must {
 				must++
